@@ -60,6 +60,17 @@ pub struct EnvState {
     pub acc_ev_key_ok: [bool; 4],
     pub acc_ev_n: usize,
     pub acc_failed: bool,
+    // ---- file model (harness/_env.rs::fsmodel replaces tokio::fs in storage.rs) and hook event log
+    pub fs_exists: bool,
+    pub fs_len: usize,
+    pub fs_data: [u8; 4],
+    pub fs_create_mode: u32,
+    pub fs_created: bool,
+    pub fs_opens: u32,
+    pub fs_open_write: bool,
+    pub hook_ev: [u8; 6],
+    pub hook_ev_n: usize,
+    pub hook_failed: bool,
     // ---- main loop models (cuts of schedule_renewal / request_certificate / call_post_operation_hooks)
     pub ml_sched_calls: u32,
     pub ml_req_calls: u32,
@@ -88,6 +99,16 @@ pub static mut ENV: EnvState = EnvState {
     acc_ev_key_ok: [false; 4],
     acc_ev_n: 0,
     acc_failed: false,
+    fs_exists: false,
+    fs_len: 0,
+    fs_data: [0; 4],
+    fs_create_mode: 0,
+    fs_created: false,
+    fs_opens: 0,
+    fs_open_write: false,
+    hook_ev: [0; 6],
+    hook_ev_n: 0,
+    hook_failed: false,
     ml_sched_calls: 0,
     ml_req_calls: 0,
     ml_post_calls: 0,
@@ -153,4 +174,117 @@ pub async fn sleep(d: Duration) {
     e.slept_req_ms = e.slept_req_ms.saturating_add(d.as_millis() as u64);
     let extra: u8 = kani::any();
     e.now += extra as u64;
+}
+
+// ---- POSIX-like single-file model standing in for tokio::fs in storage.rs -------------------------
+// A file is (exists, length, up to 4 bytes, mode given at creation). open(write, create[, truncate])
+// creates the file when absent (recording the mode argument), truncates only when asked to;
+// write_all writes at the current position (0 after open, end of file with append) and extends the
+// length only when it writes past it: content beyond what is written is KEPT, as on a real file system.
+pub mod fsmodel {
+    use super::env;
+    use std::io;
+    use std::path::Path;
+    pub const CAP: usize = 4;
+    pub struct OpenOptions {
+        write: bool,
+        create: bool,
+        truncate: bool,
+        append: bool,
+        mode: u32,
+    }
+    impl OpenOptions {
+        pub fn new() -> Self {
+            OpenOptions { write: false, create: false, truncate: false, append: false, mode: 0o666 }
+        }
+        pub fn write(&mut self, v: bool) -> &mut Self {
+            self.write = v;
+            self
+        }
+        pub fn create(&mut self, v: bool) -> &mut Self {
+            self.create = v;
+            self
+        }
+        pub fn truncate(&mut self, v: bool) -> &mut Self {
+            self.truncate = v;
+            self
+        }
+        pub fn append(&mut self, v: bool) -> &mut Self {
+            self.append = v;
+            self
+        }
+        pub fn mode(&mut self, m: u32) -> &mut Self {
+            self.mode = m;
+            self
+        }
+        pub async fn open(&self, _path: impl AsRef<Path>) -> io::Result<File> {
+            let e = env();
+            e.fs_opens += 1;
+            e.fs_open_write = self.write;
+            if !e.fs_exists {
+                if !self.create {
+                    return Err(io::Error::from(io::ErrorKind::NotFound));
+                }
+                e.fs_exists = true;
+                e.fs_len = 0;
+                e.fs_create_mode = self.mode;
+                e.fs_created = true;
+            } else if self.truncate && self.write {
+                e.fs_len = 0;
+            }
+            Ok(File { pos: if self.append { e.fs_len } else { 0 }, writable: self.write })
+        }
+    }
+    pub struct File {
+        pos: usize,
+        writable: bool,
+    }
+    impl File {
+        pub async fn open(_path: impl AsRef<Path>) -> io::Result<File> {
+            if env().fs_exists {
+                Ok(File { pos: 0, writable: false })
+            } else {
+                Err(io::Error::from(io::ErrorKind::NotFound))
+            }
+        }
+        pub async fn create(_path: impl AsRef<Path>) -> io::Result<File> {
+            let e = env();
+            if !e.fs_exists {
+                e.fs_created = true;
+                e.fs_create_mode = 0o666;
+            }
+            e.fs_exists = true;
+            e.fs_len = 0;
+            Ok(File { pos: 0, writable: true })
+        }
+        pub async fn write_all(&mut self, src: &[u8]) -> io::Result<()> {
+            let e = env();
+            if !self.writable {
+                return Err(io::Error::from(io::ErrorKind::PermissionDenied));
+            }
+            let mut i = 0;
+            while i < src.len() {
+                if self.pos >= CAP {
+                    return Err(io::Error::from(io::ErrorKind::Other));
+                }
+                e.fs_data[self.pos] = src[i];
+                self.pos += 1;
+                i += 1;
+            }
+            if self.pos > e.fs_len {
+                e.fs_len = self.pos;
+            }
+            Ok(())
+        }
+        pub async fn read_to_end(&mut self, buf: &mut Vec<u8>) -> io::Result<usize> {
+            let e = env();
+            let mut n = 0;
+            while self.pos < e.fs_len {
+                buf.push(e.fs_data[self.pos]);
+                self.pos += 1;
+                n += 1;
+            }
+            Ok(n)
+        }
+    }
 }
